@@ -52,7 +52,10 @@ ENUMERATION_EXHAUSTIVE = False  # only the sub-space flagged in coverage['exhaus
 CLASSES = ("Dimension", "Prefix", "Unit")
 KINDS2 = ["unit_pow", "unit_mul", "dim_div", "prefix", "prefixed_unit_pow"]
 KINDS3 = [k + "3" for k in KINDS2]
-KINDS = KINDS2 + KINDS3
+# one thread asks for a name along with the object (accepted, or rejected because the name or
+# symbol is taken: the rejected thread gets a ValueError, the others must still agree)
+KINDS_NAMED = ["prefix_named", "prefix_rejected", "unit_named", "unit_rejected", "dim_named", "dim_rejected"]
+KINDS = KINDS2 + KINDS3 + KINDS_NAMED
 # exhaustively enumerated sub-space: (kind, class whose __new__ window lines are decision points)
 ENUM = [
     ("dim_div", "Dimension"),
@@ -135,7 +138,7 @@ def _schedules():
 
 
 def strategy(tier):
-    kinds = st.sampled_from(KINDS2 + KINDS2 + KINDS3)
+    kinds = st.sampled_from(KINDS2 + KINDS2 + KINDS3 + KINDS_NAMED)
     return st.builds(lambda k, s: {"kind": k, "schedule": s}, kinds, _schedules())
 
 
@@ -158,6 +161,8 @@ class Plan:
             thunks.append(fn)
 
         self.unit_den = None  # ((prefix base, prefix exponent), {id(factor): exponent})
+        self.rejects = set()  # thunks whose requested name/symbol is taken: ValueError expected
+        Unit, Dimension, IdentityPrefix = g["Unit"], g["Dimension"], g["IdentityPrefix"]
         self.prefix_key = None
         self.dim_key = None
         # operands are evaluated here, single-threaded: only the denoted object itself is a
@@ -207,6 +212,37 @@ class Plan:
             self.unit_den = ((10, 3 * n), {id(Meter): n})
             self.prefix_key = (10, 3 * n)
             self.dim_key = tuple(e * n for e in Length.exponents)
+        elif base in ("prefix_named", "prefix_rejected"):
+            self.target = "Prefix"
+            a, b = Prefix(7, n - 1), Prefix(7, 1)
+            name = f"vf{n}fold" if base == "prefix_named" else "kilo"
+            add(f"Prefix(7,{n},name={name!r},symbol='Vf{n}')", lambda: Prefix(7, n, name=name, symbol=f"Vf{n}"))
+            add(f"Prefix(7,{n-1})*Prefix(7,1)", lambda: a * b)
+            if base == "prefix_rejected":
+                self.rejects.add(0)
+            self.prefix_key = (7, n)
+        elif base in ("unit_named", "unit_rejected"):
+            self.target = "Unit"
+            dim = Length**n
+            symbol = f"vfu{n}" if base == "unit_named" else "m"
+            add(f"Unit(IdentityPrefix,{{Meter:{n}}},Length**{n},name='vfunit{n}',symbol={symbol!r})",
+                lambda: Unit(IdentityPrefix, {Meter: n}, dim, name=f"vfunit{n}", symbol=symbol))
+            add(f"Meter**{n}", lambda: Meter**n)
+            if base == "unit_rejected":
+                self.rejects.add(0)
+            self.unit_den = ((0, 0), {id(Meter): n})
+            self.prefix_key = (0, 0)
+            self.dim_key = tuple(e * n for e in Length.exponents)
+        elif base in ("dim_named", "dim_rejected"):
+            self.target = "Dimension"
+            a, b = Length**n, Time**m
+            self.dim_key = tuple(x * n - y * m for x, y in zip(Length.exponents, Time.exponents))
+            key = self.dim_key
+            name = f"vfdim{n}" if base == "dim_named" else "length"
+            add(f"Dimension({key},name={name!r},symbol='Vd{n}')", lambda: Dimension(key, name=name, symbol=f"Vd{n}"))
+            add(f"Length**{n}/Time**{m}", lambda: a / b)
+            if base == "dim_rejected":
+                self.rejects.add(0)
         else:
             raise KeyError(kind)
         self.thunks = thunks
@@ -366,7 +402,9 @@ def run_case(case) -> core.Outcome:
 
     observed: List[Tuple[str, Any]] = []
     for i, r in enumerate(results):
-        if s.raised[i]:
+        if s.raised[i] and i in plan.rejects and isinstance(r, ValueError):
+            out.classes.append("rejected-naming")
+        elif s.raised[i]:
             out.fail(
                 f"C20:raised:{type(r).__name__}@{core.innermost_frame(r)}",
                 f"thread {i} evaluating {plan.exprs[i]} raised {type(r).__name__}: {r}",
@@ -381,6 +419,8 @@ def run_case(case) -> core.Outcome:
         try:
             observed.append((f"later({plan.exprs[i]})", th()))
         except Exception as e:  # noqa
+            if i in plan.rejects and isinstance(e, ValueError):
+                continue
             out.fail(
                 f"C20:raised-later:{type(e).__name__}@{core.innermost_frame(e)}",
                 f"single-threaded evaluation of {plan.exprs[i]} after the run raised {type(e).__name__}: {e}",
@@ -434,7 +474,7 @@ def enumerate_cases(tier):
     # every k up to the length of the thunk, and with the roles swapped; in the thorough tier
     # also every (k1, k2) two-preemption schedule
     PREEMPT_STATS.clear()
-    for kind in KINDS2:
+    for kind in KINDS2 + KINDS_NAMED:
         probe = {"kind": kind, "schedule": [0] * 600, "mode": "line"}
         yield probe
         if _LAST.get("case") != core.canon(probe):
@@ -445,7 +485,7 @@ def enumerate_cases(tier):
             for k in range(0, length + 1):
                 yield {"kind": kind, "schedule": [first] * k + [1 - first] * 600, "mode": "line"}
                 n += 1
-        if tier == "thorough":
+        if tier == "thorough" and kind in KINDS2:
             for k1 in range(1, min(length, 60), 2):
                 for k2 in range(1, min(length, 60), 2):
                     yield {"kind": kind, "schedule": [0] * k1 + [1] * k2 + [0] * 600, "mode": "line"}
